@@ -114,7 +114,7 @@ def run(prop: str, tier: str) -> int:
         keep = _mk_flavours(["vanilla", "nv", "reids"])
         nontrivial = set()
         replayed = 0
-        prev_obj, prev_key, mutated = None, None, 0
+        prev_obj, prev_key, mutated, prev_sub = None, None, 0, None
         for v in vecs:
             fl, n, ops = v["fl"], v["n"] - 1, v["ops"]
             cls = clss[fl][n]
@@ -123,12 +123,15 @@ def run(prop: str, tier: str) -> int:
             try:
                 if prev_key == (fl, n) and prev_obj is not None and v["id"] % 2 == 0:
                     # Mutate action: the object that was just encoded is modified in place
+                    # (as the transpilers do) and the SAME subroutine object is encoded again
                     instr = isa.mutate(prev_obj, shape, ops)
                     mutated += 1
+                    got = bytes(prev_sub)[4:]
                 else:
                     instr = isa.build(cls, shape, ops)
+                    prev_sub = Subroutine(instructions=[instr], app_id=0, netqasm_version=(0, 0))
+                    got = bytes(prev_sub)[4:]
                 prev_obj, prev_key = instr, (fl, n)
-                got = _real_bytes(instr)[4:]
             except Exception as ex:
                 prev_obj = None
                 V.add("encoder-raises-in-range", {"fl": fl, "mn": v["mn"]}, f"{type(ex).__name__}: {ex} on ops {ops}", v)
